@@ -185,6 +185,8 @@ def bounded(b):
             if "mei" in formats:
                 variants += [("mei", "children", lambda: NT.to_mei(doc)), ("mei", "attributes", lambda: NT.to_mei(doc, attrs_as_children=False)),
                              ("mei", "dur.ppq", lambda: NT.to_mei(doc, with_ppq=True, ppq=_ppq(doc)))]
+                if any(getattr(e_, "tuplet", None) for st_ in doc.staves for ms_ in st_.measures for ly_ in ms_ for e_ in ly_):
+                    variants += [("mei", "beams_inside_tuplets", lambda: NT.to_mei(doc, beams="inside_tuplets")), ("mei", "beams_around_tuplets", lambda: NT.to_mei(doc, beams="around_tuplets"))]
             if "kern" in formats:
                 variants += [("krn", "kern", lambda: NT.to_kern(doc))]
                 if len(doc.staves) > 1:
@@ -293,6 +295,25 @@ def _tuplet_part():
     return part
 
 
+def _beamed_tuplet_part():
+    """divs 6: in each bar a quarter note first, then a beamed triplet of eighths (a beam and a tuplet over the same notes), then more notes"""
+    from gen import scores as G
+    import partitura.score as sc
+    notes = [("q0", 0, 6, "C", None, 4, 1, 1), ("t0", 6, 2, "D", None, 4, 1, 1), ("t1", 8, 2, "E", None, 4, 1, 1), ("t2", 10, 2, "F", None, 4, 1, 1), ("h0", 12, 12, "G", None, 4, 1, 1),
+             ("u0", 24, 2, "A", None, 4, 1, 1), ("u1", 26, 2, "B", None, 4, 1, 1), ("u2", 28, 2, "C", None, 5, 1, 1), ("q1", 30, 6, "D", None, 5, 1, 1),
+             ("v0", 36, 2, "E", None, 5, 1, 1), ("v1", 38, 2, "D", None, 5, 1, 1), ("v2", 40, 2, "C", None, 5, 1, 1), ("q2", 42, 6, "B", None, 4, 1, 1)]
+    part = G.build_part("P1", 6, notes=notes, clefs=[(0, 1, "G", 2)], key=(0, "major"), measures=[(0, 24), (24, 48)])
+    byid = {n.id: n for n in part.iter_all(sc.Note)}
+    for grp in (("t0", "t1", "t2"), ("u0", "u1", "u2"), ("v0", "v1", "v2")):
+        part.add(sc.Tuplet(byid[grp[0]], byid[grp[2]], actual_notes=3, normal_notes=2, actual_type="eighth", normal_type="eighth"), byid[grp[0]].start.t, byid[grp[2]].end.t)
+        bm = sc.Beam()
+        part.add(bm, byid[grp[0]].start.t)
+        for g_ in grp:
+            byid[g_].assign_beam(bm)
+            byid[g_].symbolic_duration = dict(type="eighth", actual_notes=3, normal_notes=2)
+    return part
+
+
 def _export_roundtrip(b, pt, sc, d):
     from gen import scores as G
     parts = [("plain_4_4", lambda: G.build_part("P1", 4, notes=[("n0", 0, 4, "C", None, 4, 1, 1), ("n1", 4, 4, "E", -1, 4, 1, 1), ("n2", 8, 8, "G", 1, 4, 1, 1), ("n3", 16, 16, "C", None, 5, 1, 1)],
@@ -303,6 +324,7 @@ def _export_roundtrip(b, pt, sc, d):
                                                                               ("n3", 16, 16, "G", None, 4, 1, 1), ("n3t", 32, 4, "G", None, 4, 1, 1), ("n4", 36, 12, "B", -1, 3, 1, 1), ("n4c", 36, 12, "D", None, 4, 1, 1)],
                                                             ties=[("n3", "n3t")], clefs=[(0, 1, "G", 2)], key=(-3, "major"), measures=[(0, 16), (16, 32), (32, 48)])),
              ("triplets_ending_on_a_chord", _tuplet_part),
+             ("beamed_triplets_after_other_notes_of_the_bar", _beamed_tuplet_part),
              ("tie_chain_over_two_barlines", lambda: G.build_part("P1", 2, notes=[("a0", 0, 8, "B", None, 3, 1, 1), ("a1", 8, 8, "B", None, 3, 1, 1), ("a2", 16, 4, "B", None, 3, 1, 1), ("a3", 20, 4, "C", 1, 4, 1, 1)],
                                                                   ties=[("a0", "a1"), ("a1", "a2")], clefs=[(0, 1, "G", 2)], key=(2, "major"), measures=[(0, 8), (8, 16), (16, 24)])),
              ("two_staves", lambda: G.build_part("P1", 2, notes=[("n0", 0, 4, "C", None, 5, 1, 1), ("n1", 4, 4, "D", None, 5, 1, 1), ("b0", 0, 8, "C", None, 3, 2, 2)],
